@@ -101,6 +101,13 @@ pub fn compare(expected: &RefOutcome, got: &Outcome) -> Option<(String, String)>
 }
 
 pub fn check(env: &mut Env, case: &GenCase) -> Verdict {
+    if let Ok(p) = std::env::var("VERIF_C07_LOG") {
+        // dev aid for state-dependent crashes: append every case (with the machine-local index)
+        use std::io::Write;
+        if let Ok(mut f) = std::fs::OpenOptions::new().create(true).append(true).open(p) {
+            let _ = writeln!(f, "{}", serde_json::json!({"n": env.n, "case": case}));
+        }
+    }
     let prefix = format!("c{}x_", env.n);
     env.n += 1;
     let c = rename_case(case, &prefix);
@@ -207,6 +214,57 @@ impl Prop for C07 {
     /// triage helper: `vcheck child C07 run file.json` with {"text": program, "query": goal, "template": t}
     /// prints scryer's and the reference interpreter's outcome
     fn child(&self, mode: &str, input: &Value) -> i32 {
+        if mode == "shardseq" {
+            // dev helper: regenerate the case stream of a shard (input {"shard":k,"of":n,"seed":s,"count":c,
+            // "refresh":r}) and run it, printing the index first; writes the cases since the last
+            // refresh to scratch/seq.json so that a state-dependent crash can be replayed with "seq"
+            use proptest::strategy::{Strategy, ValueTree};
+            use proptest::test_runner::{Config, RngAlgorithm, TestRng, TestRunner};
+            use std::io::Write;
+            let cfg = ShardCfg { tier: Tier::Quick, seed: input["seed"].as_u64().unwrap_or(0), shard: input["shard"].as_u64().unwrap_or(0) as u32, nshards: input["of"].as_u64().unwrap_or(1) as u32, journal: None };
+            let seed = cfg.rng_seed("C07", 0);
+            let mut seed_bytes = [0u8; 32];
+            for i in 0..4 {
+                seed_bytes[i * 8..(i + 1) * 8].copy_from_slice(&seed.wrapping_add((i as u64).wrapping_mul(0x9E3779B97F4A7C15)).to_le_bytes());
+            }
+            let mut runner = TestRunner::new_with_rng(Config::default(), TestRng::from_seed(RngAlgorithm::ChaCha, &seed_bytes));
+            let strat = case_strategy(GenCfg::default());
+            let refresh = input["refresh"].as_u64().unwrap_or(250);
+            let mut env = mk_env();
+            let mut since: Vec<GenCase> = vec![];
+            for i in 0..input["count"].as_u64().unwrap_or(1000) {
+                let case = strat.new_tree(&mut runner).unwrap().current();
+                if i % refresh == 0 {
+                    env = mk_env();
+                    since.clear();
+                }
+                since.push(case.clone());
+                std::fs::write(format!("{}/scratch/seq.json", verif_dir()), serde_json::to_vec(&since).unwrap()).ok();
+                print!("{i} ");
+                std::io::stdout().flush().ok();
+                let v = check(&mut env, &case);
+                if let Verdict::Fail { signature, .. } = v {
+                    println!("\nFAIL at {i}: {signature}");
+                }
+            }
+            println!("\ndone");
+            return 0;
+        }
+        if mode == "seq" {
+            // input: a JSON list of cases, run in order on one machine
+            use std::io::Write;
+            let cases: Vec<GenCase> = serde_json::from_value(input.clone()).expect("list of cases");
+            let mut env = mk_env();
+            for (i, c) in cases.iter().enumerate() {
+                print!("{i} ");
+                std::io::stdout().flush().ok();
+                if let Verdict::Fail { signature, .. } = check(&mut env, c) {
+                    println!("\nFAIL at {i}: {signature}");
+                }
+            }
+            println!("\ndone");
+            return 0;
+        }
         if mode == "mkcase" {
             // input {"text": program over p0..pN, "queries": [[goal, template], ..]} -> prints the GenCase JSON
             let prog = crate::shared::refint::Program::from_text(input["text"].as_str().unwrap_or("")).expect("program text");
